@@ -220,9 +220,9 @@ bool c16BoxOp(std::vector<std::string> const& t, std::string& out){
 		std::ostringstream os; os << "label=" << l << " "; pre = os.str();
 		if(l != S.labels0[a[0]]) pre = pre;   // reported by the oracle below
 	}else if(op == "select1" && a.empty()){
-		// first-order part of selectWorkingSet, observed through the public interface
+		// selectWorkingSet (first and second order choice), observed through the public interface
 		std::size_t i = 0, j = 0; double v = p.selectWorkingSet(i, j);
-		std::ostringstream os; os << "i=" << (v == 0.0 ? 0 : i) << " viol=" << bits(v) << " "; pre = os.str();
+		std::ostringstream os; os << "i=" << (v == 0.0 ? 0 : i) << " j=" << (v == 0.0 ? 0 : j) << " viol=" << bits(v) << " "; pre = os.str();
 	}else{ out = "bad-op"; return true; }
 	if(std::fetestexcept(FE_INEXACT)) S.exact = false;
 	std::string orc = p.oracle(S.K0, S.labels0, S.M, S.C, true);
